@@ -15,6 +15,8 @@ class Disconnection:
     if not self.is_connected():
       raise gfapy.RuntimeError(
         "Line {} is not connected to a GFA instance".format(self))
+    referenced = self._referenced_lines()
+    self._disconnecting = True
     self._remove_field_backreferences()
     self._remove_field_references()
     self._disconnect_dependent_lines()
@@ -22,6 +24,30 @@ class Disconnection:
     self._remove_nonfield_references()
     self._gfa._unregister_line(self)
     self._gfa = None
+    self._disconnecting = False
+    # virtual lines only exist as long as they are referenced by other lines
+    for line in referenced:
+      if line.virtual and line.is_connected() and not line.all_references \
+          and not getattr(line, "_disconnecting", False):
+        line.disconnect()
+
+  def _referenced_lines(self):
+    """Lines referenced by the line in its reference fields or in its
+    non-dependent reference collections"""
+    retval = []
+    def collect(ref):
+      if isinstance(ref, gfapy.OrientedLine):
+        ref = ref.line
+      if isinstance(ref, gfapy.Line):
+        retval.append(ref)
+      elif isinstance(ref, list):
+        for elem in ref:
+          collect(elem)
+    for k in self.__class__.REFERENCE_FIELDS:
+      collect(self.get(k))
+    for k in self.__class__.OTHER_REFERENCES:
+      collect(self._refs.get(k, []))
+    return retval
 
   def _delete_reference(self, line, key):
     if key not in self._refs: return
